@@ -101,6 +101,22 @@ def merge_stats(dirs):
     return tot
 
 
+def judge_diffs(o, diffs):
+    """A frame the REAL parser accepts although the model's parser rejects it is a concrete violation of the
+    strictness clause: the model's parser is proved strict (C08_strict: an accepted frame is exactly prefix ++
+    kind ++ value part ++ field bytes with nothing left over) and complete (C08_roundtrip: the frame of every
+    well-formed message is accepted), so what it rejects is not the frame of any message."""
+    for x in diffs[:50]:
+        op, _, b = x["case"].partition(" ")
+        if op not in ("de", "deas") and not op.startswith("de"):
+            continue
+        if not x["impl"].startswith("!") and x["model"].startswith("!"):
+            o.violation("lenient_parse: the implementation accepts a frame that the strict grammar rejects (model: %s)"
+                        % x["model"][:60],
+                        {"input": {"bytes": b.split(" ")[-1][:40000], "op": x["case"][:200]},
+                         "impl_output": x["impl"][:600], "model_output": x["model"][:200]})
+
+
 def correspondence(o, n_valid, n_mut, shards, seed):
     if not build(o):
         return
@@ -133,6 +149,7 @@ def correspondence(o, n_valid, n_mut, shards, seed):
         compared += c
         ndiff += len(diffs)
         first += [x for x in diffs if x][:3]
+        judge_diffs(o, [x for x in diffs if x])
         if big and not diffs and os.path.getsize(f"{d}/monitor.txt") == 0:
             # a clean shard of a large run: keep only its statistics
             for n in ("cases.txt", "impl.txt", "model.txt"):
